@@ -154,14 +154,15 @@ mod verif_buffer {
         if v < 128 { 2 } else if v < 256 { 3 } else { 4 }
     }
 
-    #[kani::proof]
-    fn proof_buffer_push_tag_len() {
+    // push_tag_len: the three length forms (short, 0x81, 0x82) partition v <= 0xffff; one harness per form so that they run
+    // in parallel (together they are the complete proof)
+    fn check_push_tag_len(lo: usize, hi: usize) {
         let mut b = Buffer::default();
         let old = any_buffer(&mut b);
         let (pos, bm) = (b.pos, b.bookmark);
         let tag: u8 = kani::any();
         let v: usize = kani::any();
-        kani::assume(v <= 0xffff);
+        kani::assume(lo <= v && v <= hi);
         let hl = tag_len_size(v);
         let r = b.push_tag_len(tag, v);
         assert!(b.pos <= MAX_SIZE && b.bookmark == bm);
@@ -177,8 +178,20 @@ mod verif_buffer {
             }
             assert!(frame_ok(&b, &old, pos));
         }
-        kani::cover!(v == 256 && pos == 4);
-        kani::cover!(v == 255 && pos == 3);
+        kani::cover!(v == hi && pos == hl);
+        kani::cover!(v == lo && pos == hl - 1);
+    }
+    #[kani::proof]
+    fn proof_buffer_push_tag_len_short() {
+        check_push_tag_len(0, 127);
+    }
+    #[kani::proof]
+    fn proof_buffer_push_tag_len_81() {
+        check_push_tag_len(128, 255);
+    }
+    #[kani::proof]
+    fn proof_buffer_push_tag_len_82() {
+        check_push_tag_len(256, 0xffff);
     }
 
     // push_tagged: one harness per data length class (0, 5, 8, 12: empty string, short community, engine id / salt, MAC
